@@ -10,8 +10,8 @@ From FCA Require Export Corr.Common Model.Duality Spec.DualitySpec.
 Definition ctx_d := (table * list nat * list nat)%type.                 (* table, object-name ids, attribute-name ids *)
 Definition con_d := (list nat * list nat * list nat * list nat * option Z * bool)%type.
                                                                          (* extent_i, extent ids, intent_i, intent ids, hash, is_monotone *)
-Definition rels_d := (list (list nat) * list (list nat) * list (list nat))%type.
-                                                                         (* parents_dict, descendants_dict, ancestors_dict by index *)
+Definition rels_d := (list (list nat) * list (list nat) * list (list nat) * list (list nat) * list (list nat))%type.
+   (* by index i: parents_dict, descendants_dict, ancestors_dict, { j | L.leq_elements(i, j) }, { j | L[i] <= L[j] } *)
 Definition lat_d := (list con_d * list (list nat) * bool * rels_d)%type.
                                                                          (* concepts, children_dict by index, lattice.is_monotone, the other relations *)
 
@@ -26,9 +26,10 @@ Definition dec (strs : list str) (ids : list nat) : list str := map (fun i => nt
    the number of concepts — the harness rejects anything else before printing) *)
 Definition unmask (n : nat) (m : N) : list nat := filter (fun i => N.testbit m (N.of_nat i)) (seq 0 n).
 Definition mkcon (ei e ii i : list nat) (h : option Z) (m : bool) : con_d := (ei, e, ii, i, h, m).
-Definition mklat (cs : list con_d) (m : bool) (ch par de an : list N) : lat_d :=
+Definition mklat (cs : list con_d) (m : bool) (ch par de an leq cle : list N) : lat_d :=
   let n := length cs in
-  (cs, map (unmask n) ch, m, (map (unmask n) par, map (unmask n) de, map (unmask n) an)).
+  (cs, map (unmask n) ch, m,
+   (map (unmask n) par, map (unmask n) de, map (unmask n) an, map (unmask n) leq, map (unmask n) cle)).
 Definition mkctx (t : table) (on an : list nat) : ctx_d := (t, on, an).
 
 Definition dec_ctx (strs : list str) (k : ctx_d) : ctx :=
@@ -56,7 +57,9 @@ Inductive c06_case :=
 | CCompl (b : backend) (strs : list str) (k : ctx_d)
          (out : ires (ctx_d * ctx_d * ires bool))                       (* ~K, ~~K, ~~K == K *)
 | CRelabel (b : backend) (strs : list str) (k : ctx_d) (ps pc : list nat) (on' an' : list nat)
-           (out : ires (lat_d * lat_d))                                  (* lattice(K), lattice(K relabelled) *)
+           (out : ires (lat_d * lat_d * (ctx_d * lat_d * list (list nat) * list (list nat))))
+             (* lattice(K), lattice(K relabelled by hand), and the library's own route K3 = K[ps, pc]:
+                K3, lattice(K3), K3.extension_i(Y) for Y in sublists(attributes), K3.intention_i(X) *)
 | CMono (b : backend) (strs : list str) (k : ctx_d) (h : option Z)
         (out : ires (lat_d * lat_d * list (list (ires bool)))).          (* lattice(~K), monotone lattice(K), its <= matrix *)
 
@@ -100,14 +103,26 @@ Definition lattice_okb (cs : list (list nat * list nat)) (L : lattice) : bool :=
 (* the other three relation dictionaries, against the strict order [lt] on the indexes below n and
    the (already checked) children lists: parents = transposed children, descendants = strict
    down-sets, ancestors = strict up-sets *)
-Definition rels_okb (lt : nat -> nat -> bool) (n : nat) (ch : list (list nat)) (r : rels_d) : bool :=
-  let '(par, desc, anc) := r in
+Definition rels_okb (lt le : nat -> nat -> bool) (n : nat) (ch : list (list nat)) (r : rels_d) : bool :=
+  let '(par, desc, anc, leq, cle) := r in
   children_same par (map (fun i => filter (fun j => mem i (nth j ch [])) (seq 0 n)) (seq 0 n)) &&
   children_same desc (map (fun i => filter (fun j => lt j i) (seq 0 n)) (seq 0 n)) &&
-  children_same anc (map (fun i => filter (fun j => lt i j) (seq 0 n)) (seq 0 n)).
+  children_same anc (map (fun i => filter (fun j => lt i j) (seq 0 n)) (seq 0 n)) &&
+  (* the order itself: leq_elements on the lattice and <= on the concept objects *)
+  children_same leq (map (fun i => filter (fun j => le i j) (seq 0 n)) (seq 0 n)) &&
+  children_same cle (map (fun i => filter (fun j => le i j) (seq 0 n)) (seq 0 n)).
+
+Definition ext_leb (E : list (list nat)) (i j : nat) : bool := subsetb (nth i E []) (nth j E []).
 
 Definition ext_rels_okb (L : lattice) (r : rels_d) : bool :=
-  rels_okb (ext_ltb (exts_of L)) (length (l_concepts L)) (l_children L) r.
+  rels_okb (ext_ltb (exts_of L)) (ext_leb (exts_of L)) (length (l_concepts L)) (l_children L) r.
+
+Definition leq_of (l : lat_d) : list (list nat) := snd (fst (rels_of l)).
+(* order reversed: i <= j in the second  <->  j <= i in the first (same indexing) *)
+Definition leq_reversed (a b : list (list nat)) : bool :=
+  let n := length a in
+  Nat.eqb (length b) n &&
+  forallb (fun i => forallb (fun j => Bool.eqb (mem j (nth i b [])) (mem i (nth j a []))) (seq 0 n)) (seq 0 n).
 
 (* guard of finding D19: no attribute name starts with 'not not ' *)
 Definition names_guard (an : list str) : bool :=
@@ -199,7 +214,8 @@ Definition check_latT (b : backend) strs k out : nat :=
         names_okb (k_an K) (k_on K) LT &&
         (* order reversed: covers of L.T are the reversed covers of L on intents *)
         pairs_same (cover_pairs (exts_of LT) (l_children LT))
-                   (map swap_pair (cover_pairs (map c_int_i (l_concepts L)) (l_children L))) in
+                   (map swap_pair (cover_pairs (map c_int_i (l_concepts L)) (l_children L))) &&
+        leq_reversed (leq_of l) (leq_of lt) in
       code_of same ok
   | _ => 3
   end.
@@ -235,11 +251,19 @@ Definition check_relabel (b : backend) strs k ps pc on' an' out : nat :=
   let h := height t in let w := width t in
   let t' := relabel_table ps pc t in
   match out with
-  | IOk (l1, l2) =>
-      let L1 := dec_lat strs l1 in let L2 := dec_lat strs l2 in
-      (* reference construction on the relabelled table *)
-      let same := lattice_okb (concepts_spec t') L2 in
+  | IOk (l1, l2, (k3, l3, e3, i3)) =>
+      let L1 := dec_lat strs l1 in let L2 := dec_lat strs l2 in let L3 := dec_lat strs l3 in
+      let K3 := dec_ctx strs k3 in
+      let cs' := concepts_spec t' in
+      (* reference construction on the relabelled table; the model of K[ps, pc] *)
+      let same := lattice_okb cs' L2 &&
+                  match ctx_getitem b K ps pc with COk Km => ctx_eqb K3 Km | CErr _ => false end in
       let ok :=
+        (* second route: K[ps, pc] is the spec relabelling — table, names, derivations, lattice *)
+        table_eqb (k_tbl K3) t' &&
+        strs_eqb (k_on K3) (names_at (k_on K) ps) && strs_eqb (k_an K3) (names_at (k_an K) pc) &&
+        lists_eqb e3 (map (ext t') (subs w)) && lists_eqb i3 (map (int t') (subs h)) &&
+        lattice_okb cs' L3 && ext_rels_okb L3 (rels_of l3) && names_okb (k_on K3) (k_an K3) L3 &&
         is_permb h ps && is_permb w pc &&
         lattice_okb (concepts_spec t) L1 && names_okb (k_on K) (k_an K) L1 &&
         ext_rels_okb L1 (rels_of l1) && ext_rels_okb L2 (rels_of l2) &&
@@ -278,7 +302,7 @@ Definition check_mono (b : backend) strs k h out : nat :=
                                             (l_concepts M)) (l_concepts M)) &&
         (* children_dict = the lower covers of its own <= *)
         children_same (l_children M) (map (lower_covers lt n) (seq 0 n)) &&
-        rels_okb lt n (l_children M) (rels_of m) &&
+        rels_okb lt (le_at le) n (l_children M) (rels_of m) &&
         lattice_okb (concepts_spec (tbl_invert t)) Lc && ext_rels_okb Lc (rels_of lc) &&
         l_mono M && forallb c_mono (l_concepts M) &&
         names_okb (k_on K) (k_an K) M in
